@@ -371,7 +371,8 @@ pub fn gen_children(r: &mut Rng) -> Case {
     let mut c0 = vec![Cop::Spawn { x: 0, spec: parent }];
     // some children spawned by the client and handed over (possibly keeping another handle)
     let mut slot = 1usize;
-    for _ in 0..r.below(3) {
+    let same_ty = 1 + r.below(2) as u8;
+    for _ in 0..r.below(4) {
         if budget == 0 {
             break;
         }
@@ -381,13 +382,18 @@ pub fn gen_children(r: &mut Rng) -> Case {
         if r.chance(500) {
             c0.push(Cop::Clone { x: slot + 1, h: slot });
         }
-        c0.push(Cop::Send { h: 0, script: vec![Act::AddChild { ty: r.below(3) as u8, var: slot }] });
+        // mostly one common message type, so that a broadcast has several receivers
+        let ty = if r.chance(650) { same_ty } else { r.below(3) as u8 };
+        c0.push(Cop::Send { h: 0, script: vec![Act::AddChild { ty, var: slot }] });
         slot += 2;
     }
     let n = 2 + r.below(6);
     for _ in 0..n {
-        let cop = match r.below(10) {
+        let cop = match r.below(13) {
             0..=2 => Cop::Send { h: 0, script: vec![Act::SendChildren { ty: 1 + r.below(2) as u8, v: 60 + r.below(30) as u32 }] },
+            10 => Cop::Send { h: 0, script: vec![Act::SendChildren { ty: same_ty, v: 60 + r.below(30) as u32 }] },
+            // a child that is also held from outside is stopped while its parent lives
+            11 | 12 => Cop::Stop { h: 1 + r.below(slot as u64) as usize },
             3 => Cop::Send { h: 0, script: vec![Act::Push(1), Act::Sleep(1 + 2 * r.below(8))] },
             4 => Cop::Call { h: 0, script: vec![] },
             5 => Cop::Send { h: 0, script: vec![Act::Panic] },
